@@ -851,6 +851,8 @@ class Time(object):
                              microsecond=self.nanosecond // Time.MICRO)
 
     def _from_timestamp(self, t):
+        if t < 0:
+            raise ValueError("value must not be negative")
         if t >= Time.DAY:
             raise ValueError("value must be less than number of nanoseconds in a day (%d)" % Time.DAY)
         self.nanosecond_time = t
@@ -867,6 +869,9 @@ class Time(object):
                 # right pad to 9 digits
                 nano_time_str = parts[1] + "0" * (9 - len(parts[1]))
                 self.nanosecond_time += int(nano_time_str)
+
+            # strptime accepts leap seconds (60, 61): keep the value within one day
+            self._from_timestamp(self.nanosecond_time)
 
         except ValueError:
             raise ValueError("can't interpret %r as a time" % (s,))
